@@ -33,7 +33,10 @@ func Walk(ast Ast, Visit func(Ast) bool) {
 	// walkExprs walks all the exprs in the slice passed in
 	walkExprs := func(exprs []Expr) {
 		for _, expr := range exprs {
-			walk(expr)
+			if expr != nil {
+				// (a keyword only parameter without a default has a nil entry in KwDefaults)
+				walk(expr)
+			}
 		}
 	}
 
